@@ -703,22 +703,29 @@ Proof. repeat split. Qed.
    lists and maps nested to any depth, comments of both kinds between the items of a list and
    between the pairs of a map.  [VPair] and [VCom] are items, not values; [wf] says where they may stand. *)
 
+(* the three string-like values: a string, a resource id @"...", a remote reference $"..." *)
+Inductive skind := KStr | KRid | KRef.
+Definition sty (k : skind) : N := match k with KStr => AT_String | KRid => AT_ResourceID | KRef => AT_ReferenceRemote end.
+Definition spre (k : skind) : list N := match k with KStr => [] | KRid => [64] | KRef => [36] end.
+
+(* [VBool plain b]: OnBoolean(b) when [plain], OnTrue / OnFalse otherwise;
+   [VStr k whole rs]: OnArray when [whole], OnStringlikeArray otherwise *)
 Inductive tree :=
-| VNull | VBool (b : bool) | VPos (n : N) | VNeg (n : N) | VInt (z : Z) | VStr (rs : list N)
+| VNull | VBool (plain b : bool) | VPos (n : N) | VNeg (n : N) | VInt (z : Z) | VStr (k : skind) (whole : bool) (rs : list N)
 | VCom (multi : bool) (rs : list N)
 | VPair (k v : tree)
 | VList (l : list tree) | VMap (l : list tree).
 
 Section tree_induction.
   Variable P : tree -> Prop.
-  Hypotheses (Hnull : P VNull) (Hbool : forall b, P (VBool b)) (Hpos : forall n, P (VPos n)) (Hneg : forall n, P (VNeg n))
-             (Hint : forall z, P (VInt z)) (Hstr : forall rs, P (VStr rs)) (Hcom : forall m rs, P (VCom m rs))
+  Hypotheses (Hnull : P VNull) (Hbool : forall pl b, P (VBool pl b)) (Hpos : forall n, P (VPos n)) (Hneg : forall n, P (VNeg n))
+             (Hint : forall z, P (VInt z)) (Hstr : forall k w rs, P (VStr k w rs)) (Hcom : forall m rs, P (VCom m rs))
              (Hpair : forall k v, P k -> P v -> P (VPair k v))
              (Hlist : forall l, Forall P l -> P (VList l)) (Hmap : forall l, Forall P l -> P (VMap l)).
   Fixpoint tree_induction (t : tree) : P t :=
     match t with
-    | VNull => Hnull | VBool b => Hbool b | VPos n => Hpos n | VNeg n => Hneg n | VInt z => Hint z
-    | VStr rs => Hstr rs | VCom m rs => Hcom m rs
+    | VNull => Hnull | VBool pl b => Hbool pl b | VPos n => Hpos n | VNeg n => Hneg n | VInt z => Hint z
+    | VStr k w rs => Hstr k w rs | VCom m rs => Hcom m rs
     | VPair k v => Hpair k v (tree_induction k) (tree_induction v)
     | VList l => Hlist l ((fix go (l : list tree) : Forall P l :=
                              match l with [] => Forall_nil P | x :: r => Forall_cons x (tree_induction x) (go r) end) l)
@@ -736,7 +743,7 @@ Definition scalars (rs : list N) : Prop := Forall scalar rs.
 
 Fixpoint wf (t : tree) : Prop :=
   match t with
-  | VStr rs => scalars rs
+  | VStr _ _ rs => scalars rs
   | VCom multi rs => scalars rs /\ (if multi then blk_plain PNone rs = true else line_ok rs = true)
   | VPair k v => wf k /\ wf v /\ is_value k = true /\ is_value v = true
   | VInt z => (- 2 ^ 63 <= z < 2 ^ 63)%Z
@@ -759,8 +766,10 @@ Definition str_bytes (rs : list N) : bytes := CteLit.utf8_str rs.
 (* the events handed to the encoder *)
 Fixpoint events_of (t : tree) : list event :=
   match t with
-  | VNull => [ENull] | VBool b => [EBool b] | VPos n => [EPosInt n] | VNeg n => [ENegInt n] | VInt z => [EInt z]
-  | VStr rs => [EArray AT_String (N.of_nat (length (str_bytes rs))) (str_bytes rs)]
+  | VNull => [ENull] | VBool pl b => [if pl then EBool b else if b then ETrue else EFalse]
+  | VPos n => [EPosInt n] | VNeg n => [ENegInt n] | VInt z => [EInt z]
+  | VStr k whole rs => [if whole then EArray (sty k) (N.of_nat (length (str_bytes rs))) (str_bytes rs)
+                        else EStringArray (sty k) (str_bytes rs)]
   | VCom m rs => [EComment m (str_bytes rs)]
   | VPair k v => events_of k ++ events_of v
   | VList l => EList :: flat_map events_of l ++ [EEnd]
@@ -771,8 +780,8 @@ Fixpoint events_of (t : tree) : list event :=
 Definition rd_z (z : Z) : event := rd_int (z <? 0)%Z (Z.abs_N z).
 Fixpoint rd_events (t : tree) : list event :=
   match t with
-  | VNull => [ENull] | VBool b => [EBool b] | VPos n => [rd_int false n] | VNeg n => [rd_int true n] | VInt z => [rd_z z]
-  | VStr rs => [EArray AT_String (N.of_nat (length (str_bytes rs))) (str_bytes rs)]
+  | VNull => [ENull] | VBool _ b => [EBool b] | VPos n => [rd_int false n] | VNeg n => [rd_int true n] | VInt z => [rd_z z]
+  | VStr k _ rs => [EArray (sty k) (N.of_nat (length (str_bytes rs))) (str_bytes rs)]
   | VCom m rs => [EComment m (str_bytes rs)]
   | VPair k v => rd_events k ++ rd_events v
   | VList l => EList :: flat_map rd_events l ++ [EEnd]
@@ -793,11 +802,11 @@ Section Printer.
   Fixpoint gp (ind : N) (t : tree) : list N :=
     match t with
     | VNull => CteEnc.t_null
-    | VBool b => if b then CteEnc.t_true else CteEnc.t_false
+    | VBool _ b => if b then CteEnc.t_true else CteEnc.t_false
     | VPos n => int_text false n
     | VNeg n => int_text true n
     | VInt z => z_text z
-    | VStr rs => 34 :: fs rs ++ [34]
+    | VStr k _ rs => spre k ++ 34 :: fs rs ++ [34]
     | VCom false rs => 47 :: 47 :: fc rs
     | VCom true rs => 47 :: 42 :: fc rs ++ [42; 47]
     | VPair k v => gp ind k ++ [32; 61; 32] ++ gp ind v
@@ -847,8 +856,8 @@ Proof.
   - apply runes_ascii_app, ascii_int_text.
   - apply runes_ascii_app, ascii_int_text.
   - apply runes_ascii_app, ascii_z_text.
-  - cbn [app]. rewrite runes_ascii_cons by lia. rewrite <- app_assoc. cbn [wf] in Hwf.
-    rewrite runes_qbytes_app by exact Hwf. cbn [app]. rewrite runes_ascii_cons by lia. rewrite <- app_assoc. reflexivity.
+  - cbn [wf] in Hwf. destruct k; cbn [spre app]; rewrite !runes_ascii_cons by lia; rewrite <- app_assoc;
+      rewrite runes_qbytes_app by exact Hwf; cbn [app]; rewrite runes_ascii_cons by lia; rewrite <- ?app_assoc; reflexivity.
   - cbn [wf] in Hwf. destruct Hwf as [Hs _]. destruct m; cbn [app].
     + rewrite !runes_ascii_cons by lia. rewrite <- app_assoc. unfold str_bytes. rewrite runes_utf8_str_app by exact Hs.
       cbn [app]. rewrite !runes_ascii_cons by lia. rewrite <- app_assoc. reflexivity.
@@ -873,9 +882,9 @@ Definition pfin (pend : bool) (l : list tree) : bool := match l with [] => pend 
 
 Fixpoint tk (ind : N) (t : tree) : list tok :=
   match t with
-  | VNull => [TVal ENull] | VBool b => [TVal (EBool b)]
+  | VNull => [TVal ENull] | VBool _ b => [TVal (EBool b)]
   | VPos n => [TVal (rd_int false n)] | VNeg n => [TVal (rd_int true n)] | VInt z => [TVal (rd_z z)]
-  | VStr rs => [TVal (EArray AT_String (N.of_nat (length (str_bytes rs))) (str_bytes rs))]
+  | VStr k _ rs => [TVal (EArray (sty k) (N.of_nat (length (str_bytes rs))) (str_bytes rs))]
   | VCom m rs => [TComment m (str_bytes rs)]
   | VPair k v => tk ind k ++ [TWs; TEq; TWs] ++ tk ind v
   | VList l => TListB :: flat_map (fun x => TWs :: tk (ind + 4) x) l ++ (match l with [] => [] | _ => cwp ind (pfin false l) end) ++ [TListE]
@@ -987,6 +996,26 @@ Proof.
   rewrite app_length. cbn [length]. assert (H := qbody_length rs). lia.
 Qed.
 
+Lemma tok_text k rs rest : scalars rs ->
+  next_tok O (spre k ++ 34 :: qbody rs ++ 34 :: rest) = Some (TVal (EArray (sty k) (N.of_nat (length (str_bytes rs))) (str_bytes rs)), rest, O).
+Proof.
+  intro Hs. destruct k; cbn [spre app sty].
+  - apply tok_str, Hs.
+  - cbn [next_tok]. change (is_ws 64) with false. cbv iota. change (64 =? 47) with false.
+    change (64 =? 91) with false. change (64 =? 93) with false. change (64 =? 123) with false. change (64 =? 125) with false.
+    change (64 =? 61) with false. change (64 =? 40) with false. change (64 =? 41) with false. change (64 =? 62) with false.
+    change (64 =? 34) with false. change (64 =? 36) with false. change (64 =? 38) with false. change (64 =? 64) with true. cbv iota.
+    unfold at_token. cbn [m_media]. change (is_alpha 34) with false. cbv iota. unfold lex_string.
+    rewrite lex_str_qbody; [reflexivity|exact Hs|].
+    rewrite app_length. cbn [length]. assert (H := qbody_length rs). lia.
+  - cbn [next_tok]. change (is_ws 36) with false. cbv iota. change (36 =? 47) with false.
+    change (36 =? 91) with false. change (36 =? 93) with false. change (36 =? 123) with false. change (36 =? 125) with false.
+    change (36 =? 61) with false. change (36 =? 40) with false. change (36 =? 41) with false. change (36 =? 62) with false.
+    change (36 =? 34) with false. change (36 =? 36) with true. cbv iota. unfold lex_string.
+    rewrite lex_str_qbody; [reflexivity|exact Hs|].
+    rewrite app_length. cbn [length]. assert (H := qbody_length rs). lia.
+Qed.
+
 Lemma tok_line_comment rs rest : line_ok rs = true ->
   next_tok O (47 :: 47 :: rs ++ 10 :: rest) = Some (TComment false (str_bytes rs), rest, O).
 Proof. intro H. cbn [next_tok]. change (is_ws 47) with false. cbv iota. change (47 =? 47) with true. cbv iota.
@@ -1012,7 +1041,7 @@ Proof.
   - destruct (int_text_head true n) as [c [r [E Hc]]]. exists c, r. split; [exact E|apply not_ws_range, Hc].
   - cbn [wf] in Hwf. rewrite (z_text_int z Hwf).
     destruct (int_text_head (z <? 0)%Z (Z.abs_N z)) as [c [r [E Hc]]]. exists c, r. split; [exact E|apply not_ws_range, Hc].
-  - eexists _, _. split; reflexivity.
+  - destruct k; eexists _, _; split; reflexivity.
   - destruct m; eexists _, _; split; reflexivity.
   - cbn [wf] in Hwf. destruct Hwf as [Hk _]. destruct (IHt1 Hk ind) as [c [r [E Hc]]]. rewrite E. cbn [app].
     eexists _, _. split; [reflexivity|exact Hc].
@@ -1071,8 +1100,8 @@ Proof.
   - apply lexes_one; [apply tok_int, Hw|]. destruct (int_text_head true n) as [c [r [E _]]]. rewrite E. cbn [app length]. rewrite app_length. lia.
   - cbn [wf] in Hwf. rewrite (z_text_int z Hwf). apply lexes_one; [apply tok_int, Hw|].
     destruct (int_text_head (z <? 0)%Z (Z.abs_N z)) as [c [r [E _]]]. rewrite E. cbn [app length]. rewrite app_length. lia.
-  - cbn [wf] in Hwf. cbn [app]. rewrite <- app_assoc. cbn [app].
-    apply lexes_one; [apply tok_str, Hwf|]. cbn [length]. rewrite app_length. cbn [length]. lia.
+  - cbn [wf] in Hwf. rewrite <- app_assoc. cbn [app]. rewrite <- app_assoc. cbn [app].
+    apply lexes_one; [apply tok_text, Hwf|]. rewrite !app_length. cbn [length]. rewrite app_length. cbn [length]. lia.
   - cbn [wf] in Hwf. destruct Hwf as [_ Hok]. destruct m; cbn [is_lc strip] in *.
     + cbn [app]. rewrite <- app_assoc. cbn [app]. apply lexes_one; [apply tok_block_comment, Hok|].
       cbn [length]. rewrite app_length. cbn [length]. lia.
@@ -1462,21 +1491,36 @@ Lemma run_one c s e : CteEnc.run c s [e] = CteEnc.step c s e.
 Proof. cbn [CteEnc.run]. destruct (CteEnc.step c s e); reflexivity. Qed.
 
 Lemma encodes_scalars :
-  encodes VNull /\ (forall b, encodes (VBool b)) /\ (forall n, encodes (VPos n)) /\ (forall n, encodes (VNeg n)) /\
-  (forall z, encodes (VInt z)) /\ (forall rs, encodes (VStr rs)).
+  encodes VNull /\ (forall pl b, encodes (VBool pl b)) /\ (forall n, encodes (VPos n)) /\ (forall n, encodes (VNeg n)) /\
+  (forall z, encodes (VInt z)) /\ (forall k w rs, encodes (VStr k w rs)).
 Proof.
   repeat split; intros; intros Hwf c s d stk Hs Hok; assert (Hd := ctx_ok_vctx _ _ Hok);
     cbn [events_of]; rewrite run_one; unfold ctx_post, ctx_next; cbn [is_value]; unfold pp; cbn [gp CteEnc.step].
   - apply scalar_enc; assumption.
-  - destruct b; apply scalar_enc; assumption.
+  - destruct pl, b; cbn [CteEnc.step]; apply scalar_enc; assumption.
   - apply scalar_enc; assumption.
   - apply (scalar_enc (45 :: CteEnc.dec n)); assumption.
   - unfold z_text. destruct (0 <=? z)%Z; apply scalar_enc; assumption.
-  - change (AT_String =? AT_String) with true. cbv iota. cbn [wf] in Hwf.
-    assert (G := value_enc (CteEnc.write_quoted true (str_bytes rs)) (34 :: qbytes rs ++ [34]) s d stk
-                  (fun s0 => emits_write_quoted true rs s0 Hwf) Hs Hd).
+  - cbn [wf] in Hwf.
+    assert (G : exists s', CteEnc.bind (CteEnc.before_value s)
+                             (fun s1 => CteEnc.after_value
+                                (match k with
+                                 | KStr => CteEnc.write_quoted true (str_bytes rs) s1
+                                 | KRid => CteEnc.write_quoted false (str_bytes rs) (CteEnc.emit_nolf [64] s1)
+                                 | KRef => CteEnc.write_quoted false (str_bytes rs) (CteEnc.emit_nolf [36] s1)
+                                 end)) = Some s' /\
+                           outcome_of (ctx_pre d (CteEnc.ind s) ++ (spre k ++ 34 :: qbytes rs ++ [34]) ++ post_v d) (next_v d :: stk) s s').
+    { apply (value_enc (fun s1 => match k with
+                                  | KStr => CteEnc.write_quoted true (str_bytes rs) s1
+                                  | KRid => CteEnc.write_quoted false (str_bytes rs) (CteEnc.emit_nolf [64] s1)
+                                  | KRef => CteEnc.write_quoted false (str_bytes rs) (CteEnc.emit_nolf [36] s1)
+                                  end)); try assumption.
+      intro s0. destruct k; cbn [spre app].
+      - apply emits_write_quoted, Hwf.
+      - apply (emits_trans [64] _ s0 (CteEnc.emit_nolf [64] s0)); [apply emits_emit_nolf|apply emits_write_quoted, Hwf].
+      - apply (emits_trans [36] _ s0 (CteEnc.emit_nolf [36] s0)); [apply emits_emit_nolf|apply emits_write_quoted, Hwf]. }
     destruct G as [s' [E O]]. exists s'. split; [|exact O].
-    rewrite <- E. destruct (CteEnc.before_value s); reflexivity.
+    rewrite <- E. destruct w, k; cbn [sty CteEnc.step]; destruct (CteEnc.before_value s); reflexivity.
 Qed.
 
 Lemma run_app c s a b : CteEnc.run c s (a ++ b) = CteEnc.bind (CteEnc.run c s a) (fun m => CteEnc.run c m b).
@@ -1677,10 +1721,10 @@ Qed.
 
 Fixpoint devs (t : tree) : list Denote.dev :=
   match t with
-  | VNull => [Denote.DNull] | VBool b => [Denote.DBool b]
+  | VNull => [Denote.DNull] | VBool _ b => [Denote.DBool b]
   | VPos n => [Denote.dnum false n 0] | VNeg n => [Denote.dnum true n 0]
   | VInt z => [Denote.dnum (z <? 0)%Z (Z.abs_N z) 0]
-  | VStr rs => [Denote.DArr AT_String (Denote.whole_count AT_String (N.of_nat (length (str_bytes rs))) (str_bytes rs)) (str_bytes rs)]
+  | VStr k _ rs => [Denote.DArr (sty k) (N.of_nat (length (str_bytes rs))) (str_bytes rs)]
   | VCom m rs => [Denote.DComment m (str_bytes rs)]
   | VPair k v => devs k ++ devs v
   | VList l => Denote.DList :: flat_map devs l ++ [Denote.DEnd]
@@ -1709,6 +1753,9 @@ Qed.
 Lemma den_events_of t : forall r, Denote.den_go None (events_of t ++ r) = devs t ++ Denote.den_go None r.
 Proof.
   induction t using tree_induction; intro r; cbn [events_of devs app]; try reflexivity.
+  - destruct pl, b; reflexivity.
+  - destruct w; [|reflexivity]. cbn [Denote.den_go]. unfold Denote.whole_count.
+    destruct (nth (N.to_nat (sty k)) array_elem_bits 8 =? 8); reflexivity.
   - rewrite <- app_assoc. rewrite IHt1, IHt2. rewrite <- app_assoc. reflexivity.
   - cbn [Denote.den_go]. rewrite <- !app_assoc. rewrite (den_items events_of l H). reflexivity.
   - cbn [Denote.den_go]. rewrite <- !app_assoc. rewrite (den_items events_of l H). reflexivity.
@@ -1720,6 +1767,8 @@ Proof.
   - apply den_rd_int.
   - apply den_rd_int.
   - unfold rd_z. apply den_rd_int.
+  - cbn [Denote.den_go]. unfold Denote.whole_count.
+    destruct (nth (N.to_nat (sty k)) array_elem_bits 8 =? 8); reflexivity.
   - rewrite <- app_assoc. rewrite IHt1, IHt2. rewrite <- app_assoc. reflexivity.
   - cbn [Denote.den_go]. rewrite <- !app_assoc. rewrite (den_items rd_events l H). reflexivity.
   - cbn [Denote.den_go]. rewrite <- !app_assoc. rewrite (den_items rd_events l H). reflexivity.
@@ -1928,9 +1977,9 @@ Proof. exact (unreadable_refutes _ w_comment_line_feed_unreadable). Qed.
 
 Definition ex_tree : tree :=
   VMap [VCom false [104; 105];
-        VPair (VStr [107; 233; 10; 34; 8364; 128512])
-              (VList [VNull; VBool true; VPos 18446744073709551616; VNeg 0; VInt (-5); VCom true [42; 120]; VList []; VMap []]);
-        VPair (VNeg 7) (VStr [])].
+        VPair (VStr KStr true [107; 233; 10; 34; 8364; 128512])
+              (VList [VNull; VBool true true; VBool false false; VStr KRid false [104; 58; 120]; VStr KRef true [104; 58; 233]; VPos 18446744073709551616; VNeg 0; VInt (-5); VCom true [42; 120]; VList []; VMap []]);
+        VPair (VNeg 7) (VStr KStr false [])].
 
 Lemma ex_tree_wf : wf ex_tree /\ is_value ex_tree = true.
 Proof.
@@ -1946,3 +1995,119 @@ Qed.
 
 Lemma ex_tree_accepted : accepted (document (events_of ex_tree)).
 Proof. vm_compute. reflexivity. Qed.
+
+(* ------------------------------------------------------------------ *)
+(** * Times: the canonical text is read back as itself
+
+   The event carries compact_time's String(); the encoder writes the same text (checked by the
+   correspondence runs of C23 and of this property); [time_text] / [tz_text] model what the listener makes
+   of it.  For times of day without a sub-second part and every zone form the canonical text is a fixed
+   point.  The two-digit fields and the coordinates range over finite domains: those facts are swept by
+   computation (100 values, 36001 values, 1440 values) and lifted. *)
+
+Definition fmt100 (z : Z) : bytes :=
+  (if (z <? 0)%Z then [45] else []) ++ CteEnc.dec (Z.abs_N z / 100) ++ [46] ++ pad2 (Z.abs_N z mod 100).
+Definition tz_latlong (la lo : Z) : bytes := 47 :: fmt100 la ++ 47 :: fmt100 lo.
+Definition tz_offset (neg : bool) (m : N) : bytes := (if neg then 45 else 43) :: pad2 (m / 60) ++ pad2 (m mod 60).
+Definition hms (h m s : N) : bytes := pad2 h ++ [58] ++ pad2 m ++ [58] ++ pad2 s.
+
+Lemma pad2_sweep : forallb (fun n => bytes_eqb (pad2 n) [48 + n / 10; 48 + n mod 10]) (nseq 0 100) = true.
+Proof. vm_compute. reflexivity. Qed.
+
+Lemma pad2_two n : n < 100 -> pad2 n = [48 + n / 10; 48 + n mod 10].
+Proof.
+  intro H. assert (Hin : In n (nseq 0 100)) by (apply nseq_In; lia).
+  apply (proj1 (forallb_forall _ _) pad2_sweep) in Hin. apply bytes_eqb_eq in Hin. exact Hin.
+Qed.
+
+Definition zrange : list Z := map (fun i => (Z.of_N i - 18000)%Z) (nseq 0 (N.to_nat 36001)).
+Definition coord_chk (z : Z) : bool :=
+  (coord100 (fmt100 z) =? z)%Z && forallb (fun c => negb (c =? 47)) (fmt100 z) &&
+  match fmt100 z with c :: _ => is_dec c || (c =? 45) | [] => false end.
+
+Lemma coord_sweep : forallb coord_chk zrange = true.
+Proof. vm_compute. reflexivity. Qed.
+
+Lemma coord_ok z : (-18000 <= z <= 18000)%Z -> coord_chk z = true.
+Proof.
+  intro H. apply (proj1 (forallb_forall _ _) coord_sweep). unfold zrange. apply in_map_iff.
+  exists (Z.to_N (z + 18000)). split; [lia|]. apply nseq_In. rewrite N2Nat.id. lia.
+Qed.
+
+(* every latitude / longitude written in hundredths is read back as the same hundredths *)
+Theorem tz_latlong_fixed la lo : (-9000 <= la <= 9000)%Z -> (-18000 <= lo <= 18000)%Z ->
+  tz_text (tz_latlong la lo) = Some (tz_latlong la lo).
+Proof.
+  intros Hla Hlo.
+  assert (Ca := coord_ok la ltac:(lia)). assert (Co := coord_ok lo Hlo).
+  unfold coord_chk in Ca, Co. apply andb_true_iff in Ca as [Ca Ca3]. apply andb_true_iff in Ca as [Ca1 Ca2].
+  apply andb_true_iff in Co as [Co Co3]. apply andb_true_iff in Co as [Co1 Co2].
+  apply Z.eqb_eq in Ca1, Co1.
+  unfold tz_latlong, tz_text. destruct (fmt100 la) as [|c r] eqn:Ea; [discriminate|]. cbn [app].
+  rewrite Ca3.
+  change (c :: r ++ 47 :: fmt100 lo) with ((c :: r) ++ 47 :: fmt100 lo).
+  rewrite (span_all _ (c :: r) (47 :: fmt100 lo) Ca2 eq_refl). cbn [tl]. rewrite Ca1, Co1.
+  assert (Wa : wrap16 la = la) by (unfold wrap16; rewrite Z.mod_small; lia).
+  assert (Wo : wrap16 lo = lo) by (unfold wrap16; rewrite Z.mod_small; lia).
+  rewrite Wa, Wo.
+  replace ((lo <? -18000) || (18000 <? lo) || (la <? -9000) || (9000 <? la))%Z with false by lia.
+  change (Some (47 :: fmt100 la ++ 47 :: fmt100 lo) = Some (47 :: (c :: r) ++ 47 :: fmt100 lo)). rewrite Ea. reflexivity.
+Qed.
+
+Definition offset_chk (m : N) : bool :=
+  option_eqb bytes_eqb (tz_text (tz_offset false m)) (Some (tz_offset false m)) &&
+  option_eqb bytes_eqb (tz_text (tz_offset true m)) (Some (tz_offset true m)).
+Lemma offset_sweep : forallb offset_chk (nseq 1 (N.to_nat 1439)) = true.
+Proof. vm_compute. reflexivity. Qed.
+
+(* every UTC offset of 1 .. 1439 minutes, either sign *)
+Theorem tz_offset_fixed neg m : 1 <= m <= 1439 -> tz_text (tz_offset neg m) = Some (tz_offset neg m).
+Proof.
+  intro H. assert (Hin : In m (nseq 1 (N.to_nat 1439))) by (apply nseq_In; rewrite N2Nat.id; lia).
+  apply (proj1 (forallb_forall _ _) offset_sweep) in Hin. unfold offset_chk in Hin. apply andb_true_iff in Hin as [H1 H2].
+  destruct neg; [clear H1; rename H2 into H1|clear H2];
+    (destruct (tz_text (tz_offset _ m)) as [t|]; [|discriminate]; cbn [option_eqb] in H1; apply bytes_eqb_eq in H1; rewrite H1; reflexivity).
+Qed.
+
+Lemma is_dec_digit d : d < 10 -> is_dec (48 + d) = true.
+Proof. unfold is_dec. lia. Qed.
+
+Lemma dval_two a b : a < 10 -> b < 10 -> dval [48 + a; 48 + b] = a * 10 + b.
+Proof.
+  intros Ha Hb. unfold dval. cbn [CteLit.chars_val].
+  assert (D : forall d, d < 10 -> CteLit.digit_val (48 + d) = Some d).
+  { intros d Hd. unfold CteLit.digit_val, CteLit.is_dec. replace ((48 <=? 48 + d) && (48 + d <=? 57)) with true by lia. f_equal. lia. }
+  rewrite !D by assumption. lia.
+Qed.
+
+(* hh:mm:ss followed by a zone text (or nothing): the time part is re-rendered as it was, the zone goes through [tz_text] *)
+Lemma time_text_hms h m s T : h < 24 -> m < 60 -> s <= 60 ->
+  (match T with [] => True | c :: _ => c = 47 \/ c = 43 \/ c = 45 end) ->
+  time_text (hms h m s ++ T) = option_map (app (hms h m s)) (tz_text T).
+Proof.
+  intros Hh Hm Hs HT. unfold hms. rewrite (pad2_two h), (pad2_two m), (pad2_two s) by lia.
+  set (a1 := h / 10). set (a2 := h mod 10). set (b1 := m / 10). set (b2 := m mod 10). set (c1 := s / 10). set (c2 := s mod 10).
+  assert (A1 : a1 < 10) by (unfold a1; lia). assert (A2 : a2 < 10) by (unfold a2; lia).
+  assert (B1 : b1 < 10) by (unfold b1; lia). assert (B2 : b2 < 10) by (unfold b2; lia).
+  assert (C1 : c1 < 10) by (unfold c1; lia). assert (C2 : c2 < 10) by (unfold c2; lia).
+  cbn [app]. unfold time_text.
+  assert (Hspan : forall X, span is_dec ((48 + a1) :: (48 + a2) :: 58 :: X) = ([48 + a1; 48 + a2], 58 :: X)).
+  { intro X. cbn [span]. rewrite !is_dec_digit by assumption. change (is_dec 58) with false. reflexivity. }
+  rewrite Hspan. cbn [tl firstn skipn].
+  rewrite !dval_two by assumption.
+  replace (a1 * 10 + a2) with h by (unfold a1, a2; lia).
+  replace (b1 * 10 + b2) with m by (unfold b1, b2; lia).
+  replace (c1 * 10 + c2) with s by (unfold c1, c2; lia).
+  replace ((23 <? h) || (59 <? m) || (60 <? s)) with false by lia.
+  assert (Hfrac : match T with 46 :: f => let '(d, r) := span is_dec f in (d, r) | _ => (@nil N, T) end = ([], T)).
+  { destruct T as [|c T']; [reflexivity|]. destruct HT as [E|[E|E]]; subst c; reflexivity. }
+  rewrite Hfrac. change (dval []) with 0. cbn [N.mul N.eqb]. change (0 =? 0) with true. cbv iota.
+  rewrite (pad2_two h), (pad2_two m), (pad2_two s) by lia. fold a1 a2 b1 b2 c1 c2.
+  destruct (tz_text T) as [tz|]; [|reflexivity]. cbn [option_map app]. rewrite app_nil_r || idtac. reflexivity.
+Qed.
+
+(* a time of day without sub-second part, in any zone form whose text is a fixed point of [tz_text] *)
+Theorem time_text_fixed h m s T : h < 24 -> m < 60 -> s <= 60 ->
+  (match T with [] => True | c :: _ => c = 47 \/ c = 43 \/ c = 45 end) -> tz_text T = Some T ->
+  time_text (hms h m s ++ T) = Some (hms h m s ++ T).
+Proof. intros Hh Hm Hs HT Hz. rewrite time_text_hms by assumption. rewrite Hz. reflexivity. Qed.
